@@ -119,6 +119,9 @@ def ops : List (String × Handler) := [
   ("T.mirror_emap", fun j => do
       let m := mirrorEmap (← jNat (← arg j "n")) (← jNat (← arg j "m")) (← jList (jPair jInt jEvent) (← arg j "emap"))
       pure (ofList (fun (q : Int × MEvent) => Json.arr #[ofInt q.1, ofEvent q.2]) m)),
+  ("T.mirror_event_list", fun j => do
+      let l := mirrorEventList (← jNat (← arg j "n")) (← jNat (← arg j "m")) (← jList jEvent (← arg j "events"))
+      pure (ofList ofEvent l)),
   ("T.mirror_micro", fun j => do
       let m := mirrorMicroMap (← jNat (← arg j "n")) (← jNat (← arg j "m")) (← jList jIv (← arg j "micro"))
       pure (ofList ofIv m)),
